@@ -24,6 +24,7 @@ func C12(r *core.Run) {
 	rule123(r, ctx)
 	rule083(r, ctx)
 	rule086(r)
+	rule0112(r, "C12")
 	reach := reachableFrom(r, handlerRoots(r))
 	rule091alloc(r, ctx, reach)
 	// the decoder's own bounds sites
